@@ -288,8 +288,8 @@ func driver(seed uint64, n int, outV, outJSON string, _ []string) {
 			case <-mySch.parked:
 			case q := <-doneCh:
 				finish(q)
-			case <-time.After(10 * time.Second):
-				failed("C07: a request neither reached its next yield point nor finished within 10 s (blocked?)")
+			case <-time.After(120 * time.Second):
+				failed("C07: a request neither reached its next yield point nor finished within 120 s (blocked?)")
 			}
 		}
 		observe := func(label func() string, t string) {
